@@ -16,6 +16,7 @@ import (
 	"os"
 	"os/exec"
 	"path/filepath"
+	"regexp"
 	"strconv"
 	"strings"
 	"sync/atomic"
@@ -977,4 +978,163 @@ func genSyscallFaultCase(t *Tape) *ProcCase {
 		c.Strace = &StraceInj{Syscall: "write", When: 1, Errno: []string{"ENOSPC", "EIO", "EDQUOT"}[t.Draw(3)]}
 	}
 	return c
+}
+
+// ---------------------------------------------------------------- C03 at the process boundary: incremental output
+
+var straceRetRe = regexp.MustCompile(`= (-?\d+)`)
+
+// runCliIncremental: monitor M1 for the real binary. The binary reads a named
+// file of several hundred to a few thousand bytes (so that the decoder issues
+// several read(2) calls); strace logs, in order, every read on that file and
+// every write to the stdout file. At each read, all output owed for the values
+// that are complete (plus one byte) in the bytes delivered so far must already
+// have been written. No clock is involved: only the order of system calls.
+func runCliIncremental(c *StreamCase, keep bool) Outcome {
+	log := newEventLog(keep)
+	o := Outcome{Probes: map[string]int{}, Faults: map[string]int{}, Nontrivial: true}
+	finish := func() Outcome {
+		o.LogHash, o.Log, o.Steps = fmt.Sprintf("%x", hashStr(c.ProgText)), log.lines, log.seq
+		return o
+	}
+	if _, err := os.Stat("/usr/bin/strace"); err != nil || jqawkBin() == "" {
+		o.Skipped = "ptrace: strace unavailable"
+		return finish()
+	}
+	if c.ProgText == "" && c.Prog != nil {
+		c.ProgText = c.Prog.Render()
+	}
+	if len(c.Files) != 1 || c.Prog == nil {
+		o.Skipped = "needs exactly one input file and a trace program"
+		return finish()
+	}
+	data := []byte(c.Files[0].Data)
+	ref := ScanStream(data)
+	if ref.Status != RefClean || ref.Dubious {
+		o.Skipped = "needs a clean stream"
+		return finish()
+	}
+	var vals []*JVal
+	for _, v := range ref.Values {
+		vals = append(vals, v.V)
+	}
+	name := "in.json"
+	model := RunModel(c.Prog, []ModelFile{{name, vals}}, nil, true)
+	if !model.OK {
+		o.Skipped = "outside model domain: " + model.Why
+		return finish()
+	}
+	n := atomic.AddInt64(&procCounter, 1)
+	dir := filepath.Join(procScratch(), fmt.Sprintf("inc-%d-%d", os.Getpid(), n))
+	if err := os.MkdirAll(dir, 0o755); err != nil {
+		o.Class, o.Msg = "harness", err.Error()
+		return finish()
+	}
+	defer os.RemoveAll(dir)
+	os.WriteFile(filepath.Join(dir, name), data, 0o644)
+	os.WriteFile(filepath.Join(dir, "prog.jqawk"), []byte(c.ProgText), 0o644)
+	so, _ := os.Create(filepath.Join(dir, "stdout.txt"))
+	se, _ := os.Create(filepath.Join(dir, "stderr.txt"))
+	defer so.Close()
+	defer se.Close()
+	cmd := exec.Command("/usr/bin/strace", "-f", "-qq", "-o", filepath.Join(dir, "trace.log"), "-e", "trace=read,write", "-P", name, "-P", "stdout.txt", jqawkBin(), "-f", "prog.jqawk", name)
+	cmd.Dir = dir
+	cmd.Stdout, cmd.Stderr = so, se
+	cmd.Env = []string{"PATH=/usr/bin:/bin", "HOME=" + dir}
+	if err := cmd.Start(); err != nil {
+		o.Class, o.Msg = "harness", err.Error()
+		return finish()
+	}
+	timer := time.AfterFunc(120*time.Second, func() { cmd.Process.Kill() })
+	werr := cmd.Wait()
+	if !timer.Stop() {
+		o.Class, o.Msg = "harness", "binary under strace exceeded the watchdog"
+		return finish()
+	}
+	errb, _ := os.ReadFile(filepath.Join(dir, "stderr.txt"))
+	if strings.Contains(string(errb), "PTRACE") || strings.Contains(string(errb), "ptrace") {
+		o.Skipped = "ptrace: not permitted in this sandbox"
+		return finish()
+	}
+	outb, _ := os.ReadFile(filepath.Join(dir, "stdout.txt"))
+	tl, _ := os.ReadFile(filepath.Join(dir, "trace.log"))
+	delivered, written, reads := 0, 0, 0
+	for _, l := range strings.Split(string(tl), "\n") {
+		if strings.Contains(l, "<unfinished") || strings.TrimSpace(l) == "" {
+			continue
+		}
+		isRead := strings.Contains(l, " read(") || strings.Contains(l, "read resumed>")
+		isWrite := strings.Contains(l, " write(") || strings.Contains(l, "write resumed>")
+		if !isRead && !isWrite {
+			continue
+		}
+		idx := strings.LastIndex(l, "= ")
+		if idx < 0 {
+			continue
+		}
+		k, err := strconv.Atoi(strings.Fields(l[idx+2:])[0])
+		if err != nil || k < 0 {
+			continue
+		}
+		if isWrite {
+			written += k
+			continue
+		}
+		// a read on the input is about to be issued: what is owed by now?
+		reads++
+		vi := -1
+		for i, v := range ref.Values {
+			if v.End+1 <= delivered {
+				vi = i
+			}
+		}
+		owed := model.PrefixLen(0, vi)
+		log.add('P', 0, "READ delivered=%d written=%d owed=%d", delivered, written, owed)
+		if written < owed {
+			o.Class = "late-output"
+			o.Msg = fmt.Sprintf("the binary issued a further read on %s after %d bytes (value #%d and one following byte delivered) having written only %d of the %d output bytes owed by then", name, delivered, vi, written, owed)
+			return finish()
+		}
+		delivered += k
+	}
+	o.Probes["cli_reads"] += reads
+	if reads >= 3 {
+		o.Probes["cli_three_or_more_reads"]++
+	}
+	o.Shape = fmt.Sprintf("cli-inc|reads=%d|vals=%d", reads, len(vals))
+	if werr != nil || string(outb) != model.Text() {
+		o.Class = "stdout-mismatch"
+		o.Msg = fmt.Sprintf("exit error %v; stdout differs from the reference schedule\n--- expected ---\n%s--- observed ---\n%s", werr, truncate(model.Text(), 500), truncate(string(outb), 500))
+	}
+	return finish()
+}
+
+func cliIncrementalWorkload(count map[string]int) *Workload {
+	return &Workload{
+		Name:  "cli-incremental",
+		Count: func(tier string) int { return count[tier] },
+		Gen: func(i int, t *Tape, tier string) any {
+			c := genStreamCase(t, streamGenOpts{mode: "c03", maxFiles: 1, maxVals: 6, sigProb: 10})
+			if len(c.Files) == 0 {
+				c.Files = []SimFile{{Name: "in.json"}}
+			}
+			c.Files = c.Files[:1]
+			c.Files[0].Name = "in.json"
+			c.Selectors = nil
+			c.Fault = nil
+			g := &streamGen{t: t, profile: t.Weighted(3, 3, 2, 2)}
+			// long enough for several read(2) calls
+			for len(c.Files[0].Data) < 700+t.Draw(2500) {
+				c.Files[0].Data = append(c.Files[0].Data, g.fileText(1+t.Draw(3))...)
+				c.Files[0].Data = append(c.Files[0].Data, '\n')
+			}
+			c.Files[0].Sched = nil
+			sanitizeSelectors(c)
+			return c
+		},
+		Run:         func(c any, keep bool) Outcome { return runCliIncremental(c.(*StreamCase), keep) },
+		New:         func() any { return &StreamCase{} },
+		NoRecheck:   true,
+		ShrinkEvals: 60,
+	}
 }
